@@ -232,12 +232,13 @@ func e1Preamble(e *Env, rule string) *e1Model {
 
 func runC01(e *Env) {
 	r := e.R
+	// first, so that it is reported even when the automaton cannot be built for a reorganised emitter
+	checkPolicyReadOnly(e, e.Host(), "E1.readonly")
 	m := e1Preamble(e, "E1.spine")
 	if m == nil {
 		return
 	}
 	p := m.p
-	checkPolicyReadOnly(e, p, "E1.readonly")
 	checkGroupOrder(e, m)
 	checkNumOrigin(e, m)
 	checkRetContract(e, m, "E1.retc")
@@ -1101,13 +1102,14 @@ func evalTest(test string, ord int, bit int, bitDomain bool) (bool, bool) {
 
 func runC02(e *Env) {
 	r := e.R
+	// first, so that it is reported even when the automaton cannot be built for a reorganised emitter
+	checkPolicyReadOnly(e, e.Host(), "E1.readonly")
 	m := e1Preamble(e, "E1.template")
 	if m == nil {
 		return
 	}
 	p := m.p
 	checkTargetConsts(e, p, load.Module, "E1.template", m.polFn, m.fragFn)
-	checkPolicyReadOnly(e, p, "E1.readonly")
 	name := "x86_64=true,short=true"
 	c := newWctx(e, m, name)
 	var swc *ssa.Function
